@@ -45,6 +45,12 @@ fn main() {
                     out.flush();
                 }
             }
+            // C11: many more inputs are executed than logged; only panicking calls are written out
+            if focus == "C11" {
+                let n = if tier == "thorough" { 3_000_000 } else { 250_000 };
+                let done = gen_enc::storm(n, seed, profile, 1_000_000, &mut out);
+                out.put(&serde_json::json!({"id": 0, "fam": "enc", "summary": true, "executed_unlogged": done}));
+            }
             out.flush();
             eprintln!("enc: {} cases", cases.len());
         }
